@@ -116,10 +116,14 @@ LargeLimitChangesNothing(cfg, started, a, b, call, ret) ==
 CumulativeTimeoutFires(cfg, started, a, b, call, ret) ==
   (cfg.tmo = 2 /\ call = "build" /\ a.finished = 0 /\ started /\ a.history_len = 0) =>
      (ret = "raise:ProofTimeoutError" /\ b.finished = 1 /\ b.premature = 1)
+\* tmo = 1: a time limit that has expired as soon as the build timer has run once (history-defined: `ran`).  Exceeding
+\* the time limit RAISES, whatever other limit is configured
+ExpiredTimeLimitRaises(cfg, ran, a, call, ret) ==
+  (cfg.tmo = 1 /\ ran /\ a.finished = 0 /\ call \in {"step", "build"}) => ret = "raise:ProofTimeoutError"
 OnlyDocumentedErrors(ret) == ret \in {"none", "entry", "self", "ok", "raise:IllegalStateError", "raise:ProofTimeoutError"}
 HistoryMonotone(a, b) == b.history_len >= a.history_len /\ (a.finished = 1 => b.finished = 1)
 
-ClauseFail(cfg, hasargAfter, startedBefore, a, b, call, ret) ==
+ClauseFail(cfg, hasargAfter, startedBefore, ranBefore, a, b, call, ret) ==
   IF ~OnlyDocumentedErrors(ret) THEN "OnlyDocumentedErrors"
   ELSE IF ~ThreeValued(b) THEN "ThreeValued"
   ELSE IF ~PrematureHasNoVerdict(b) THEN "PrematureHasNoVerdict"
@@ -129,6 +133,7 @@ ClauseFail(cfg, hasargAfter, startedBefore, a, b, call, ret) ==
   ELSE IF ~SettersRefusedAfterStart(startedBefore, a, b, call, ret) THEN "SettersRefusedAfterStart"
   ELSE IF ~NoArgumentNoVerdict(hasargAfter, b) THEN "NoArgumentNoVerdict"
   ELSE IF ~TimeoutLeavesFinished(b, ret) THEN "TimeoutLeavesFinished"
+  ELSE IF ~ExpiredTimeLimitRaises(cfg, ranBefore, a, call, ret) THEN "ExpiredTimeLimitRaises"
   ELSE IF ~LimitStopsPremature(cfg, a, b, call, ret) THEN "LimitStopsPremature"
   ELSE IF ~LargeLimitChangesNothing(cfg, startedBefore, a, b, call, ret) THEN "LargeLimitChangesNothing"
   ELSE IF ~CumulativeTimeoutFires(cfg, startedBefore, a, b, call, ret) THEN "CumulativeTimeoutFires"
